@@ -1,0 +1,16 @@
+//go:build verif
+
+package ippool
+
+import (
+	v3 "github.com/projectcalico/api/pkg/apis/projectcalico/v3"
+)
+
+// Re-exports for the verification harness (/verif, property C39).
+// Compiled only with -tags verif.
+
+// VerifReconcile runs one reconcile pass (conditions, then finalizers).
+func (c *IPPoolController) VerifReconcile() error { return c.reconcile() }
+
+// VerifPoolSortFunc is poolSortFunc.
+func VerifPoolSortFunc(a, b *v3.IPPool) int { return poolSortFunc(a, b) }
